@@ -68,6 +68,168 @@ fn decbuf(seed: u64, budget: u64) -> (u64, Vec<u64>, Option<String>) {
     (evals, states.into_iter().collect(), None)
 }
 
+/// small synthesised frames (valid ones must decode to the plan's expected bytes; mutated ones must not
+/// make the interpreter report anything) through four entry points
+fn frames(seed: u64, budget: u64, hostile: bool, file: &str) -> (u64, Vec<u64>, Option<String>) {
+    use ruzstd::decoding::{BlockDecodingStrategy, FrameDecoder, StreamingDecoder};
+    use std::io::Read;
+    let mut r = Rng::for_case(seed, 6, 0);
+    // small frames prepared natively by `mon miriprep` (synthesising plans is far too slow under the interpreter)
+    let unhex = |s: &str| -> Vec<u8> { (0..s.len() / 2).map(|i| u8::from_str_radix(&s[2 * i..2 * i + 2], 16).unwrap_or(0)).collect() };
+    let text = std::fs::read_to_string(file).unwrap_or_default();
+    // parse only a handful of lines: hex decoding is slow under the interpreter
+    let lines: Vec<&str> = text.lines().collect();
+    let mut matrix: Vec<(String, Vec<u8>, Vec<u8>)> = Vec::new();
+    let mut hostile_plans: Vec<Vec<u8>> = Vec::new();
+    let mut tries = 0;
+    while !lines.is_empty() && tries < 400 && (matrix.len() < (budget as usize).clamp(4, 40) || (hostile && hostile_plans.len() < 6)) {
+        tries += 1;
+        let line = lines[r.usize(0, lines.len() - 1)];
+        let p: Vec<&str> = line.split(' ').collect();
+        match p.first() {
+            Some(&"V") if p.len() == 4 && matrix.len() < 40 => matrix.push((String::from_utf8_lossy(&unhex(p[1])).into_owned(), unhex(p[2]), unhex(p[3]))),
+            Some(&"H") if p.len() == 2 && hostile && hostile_plans.len() < 6 => hostile_plans.push(unhex(p[1])),
+            _ => {}
+        }
+    }
+    if matrix.is_empty() {
+        return (0, vec![], Some("harness: no prepared frames".into()));
+    }
+    let mut seen = std::collections::BTreeSet::new();
+    let mut evals = 0u64;
+    while evals < budget {
+        // pick a frame
+        let (name, bytes, expected): (String, Vec<u8>, Option<Vec<u8>>) = if !hostile {
+            let (n, b, e) = r.pick(&matrix);
+            (n.clone(), b.clone(), Some(e.clone()))
+        } else {
+            let mut b = if r.chance(1, 4) && !hostile_plans.is_empty() { r.pick(&hostile_plans).clone() } else { r.pick(&matrix).1.clone() };
+            for _ in 0..r.usize(0, 3) {
+                if b.is_empty() {
+                    break;
+                }
+                match r.below(4) {
+                    0 => {
+                        let i = r.usize(0, b.len() - 1);
+                        b[i] ^= 1 << r.below(8);
+                    }
+                    1 => {
+                        let i = r.usize(0, b.len() - 1);
+                        b[i] = *r.pick(&[0u8, 0xFF, 0x80, 1]);
+                    }
+                    2 => {
+                        let cut = r.usize(0, b.len() - 1);
+                        b.truncate(cut);
+                    }
+                    _ => {
+                        let i = r.usize(0, b.len() - 1);
+                        b[i] = r.byte();
+                    }
+                }
+            }
+            ("mutated".to_string(), b, None)
+        };
+        let entry = r.below(4);
+        evals += 1;
+        let mut d = FrameDecoder::new();
+        // valid frames may declare large windows (allocated lazily on a fresh decoder); hostile ones get a small limit
+        d.set_max_window_size(if hostile { 1 << 20 } else { 1 << 31 });
+        let got: Result<Vec<u8>, String> = match entry {
+            0 => match StreamingDecoder::new_with_decoder(&bytes[..], &mut d) {
+                Err(e) => Err(e.to_string()),
+                Ok(mut s) => {
+                    let mut out = Vec::new();
+                    let mut buf = [0u8; 300];
+                    loop {
+                        match s.read(&mut buf) {
+                            Ok(0) => break Ok(out),
+                            Ok(n) => {
+                                out.extend_from_slice(&buf[..n]);
+                                if out.len() > 100_000 {
+                                    break Err("output cap".into());
+                                }
+                            }
+                            Err(e) => break Err(e.to_string()),
+                        }
+                    }
+                }
+            },
+            1 => {
+                let mut src = &bytes[..];
+                match d.reset(&mut src) {
+                    Err(e) => Err(e.to_string()),
+                    Ok(()) => {
+                        let mut out = Vec::new();
+                        loop {
+                            match d.decode_blocks(&mut src, BlockDecodingStrategy::UptoBlocks(1)) {
+                                Err(e) => break Err(e.to_string()),
+                                Ok(_) => {
+                                    if let Some(v) = d.collect() {
+                                        out.extend_from_slice(&v);
+                                    }
+                                    if d.is_finished() {
+                                        break Ok(out);
+                                    }
+                                    if out.len() > 100_000 {
+                                        break Err("output cap".into());
+                                    }
+                                }
+                            }
+                        }
+                    }
+                }
+            }
+            2 => {
+                let mut out = Vec::with_capacity(4000);
+                d.decode_all_to_vec(&bytes, &mut out).map(|_| out).map_err(|e| e.to_string())
+            }
+            _ => {
+                let mut out = Vec::new();
+                let mut target = [0u8; 777];
+                let mut pos = 0;
+                let mut idle = 0;
+                loop {
+                    match d.decode_from_to(&bytes[pos..], &mut target) {
+                        Err(e) => break Err(e.to_string()),
+                        Ok((rd, wr)) => {
+                            if rd > bytes.len() - pos {
+                                break Err("overread".into());
+                            }
+                            pos += rd;
+                            out.extend_from_slice(&target[..wr]);
+                            if rd == 0 && wr == 0 {
+                                idle += 1;
+                                if idle > 2 {
+                                    break if d.is_finished() { Ok(out) } else { Err("needs more".into()) };
+                                }
+                            }
+                            if out.len() > 100_000 {
+                                break Err("output cap".into());
+                            }
+                        }
+                    }
+                }
+            }
+        };
+        if let Some(exp) = expected {
+            // front ends 2 and 3 cannot select a dictionary: dictionary plans are skipped by the size filter / names
+            if name.contains("dict") {
+                continue;
+            }
+            match &got {
+                Ok(out) if *out == exp => {}
+                other => return (evals, vec![], Some(format!("valid frame {name} through entry {entry}: {:?}", other.as_ref().map(|v| v.len())))),
+            }
+        }
+        let mut h: u64 = 0xcbf29ce484222325 ^ entry;
+        for b in name.bytes().chain(got.is_ok().to_string().bytes()) {
+            h = (h ^ u64::from(b)).wrapping_mul(0x100000001b3);
+        }
+        seen.insert(h);
+    }
+    (evals, seen.into_iter().collect(), None)
+}
+
 fn main() {
     let a: Vec<String> = std::env::args().collect();
     let workload = a.get(1).map(|s| s.as_str()).unwrap_or("ring");
@@ -76,6 +238,8 @@ fn main() {
     let (evals, states, violation) = match workload {
         "ring" => ring(seed, budget),
         "decbuf" => decbuf(seed, budget),
+        "frames_valid" => frames(seed, budget, false, a.get(4).map(|s| s.as_str()).unwrap_or("")),
+        "frames_hostile" => frames(seed, budget, true, a.get(4).map(|s| s.as_str()).unwrap_or("")),
         _ => {
             eprintln!("unknown workload");
             std::process::exit(2);
